@@ -145,6 +145,42 @@ BINARY_METHOD = {
 }
 
 
+# configurations the library refused to build although the specification admits them (AlgebraModel!Admissible is
+# what the checks draw them from).  Reported by Ctx.finish: a violation for C01 / C14, a counted note elsewhere
+# (the property under check is vacuous for an algebra that cannot be built) -- never a harness crash.
+REFUSED = []
+_BUILD = {}
+
+
+def buildable(u, opts=None):
+    import json as _json
+    key = _json.dumps([u, opts or {}], sort_keys=True, default=str)
+    if key not in _BUILD:
+        try:
+            from drive_ops import algebra_options
+            make_algebra(u, **algebra_options(opts or {}))
+            _BUILD[key] = True
+        except Exception as e:   # noqa: BLE001
+            _BUILD[key] = False
+            REFUSED.append({'u': u, 'opts': opts or {}, 'raised': type(e).__name__, 'message': str(e)[:200]})
+    return _BUILD[key]
+
+
+def filter_buildable(jobs):
+    out = []
+    for j in jobs:
+        if isinstance(j, dict) and isinstance(j.get('u'), dict) and 'mode' in j['u']:
+            if buildable(j['u'], j.get('opts')):
+                out.append(j)
+        elif isinstance(j, dict) and j.get('mix'):
+            j2 = dict(j)
+            j2['cases'] = [c for c in j['cases'] if buildable(c[0]) and buildable(c[1])]
+            out.append(j2)
+        else:
+            out.append(j)
+    return out
+
+
 def apply_op(op, args, params=()):
     if op == 'grade':
         return args[0].grade(*params)
